@@ -933,3 +933,19 @@ PROPS["C17"]["claim"] += (" Since C17ObjUnmarshal the object UNMARSHALLER has a 
 PROPS["C13"]["rule_text"] += ("; unmarshalm / unmarshalr: every marshaller rendering and one mutation of it again through the stateful model of "
     "the unmarshaller, from an instance abandoned after three tokens; atlas 90 (chained transforms, a transform receiving a pointer type, "
     "a union whose member is a union), which the library must refuse without panicking or overflowing the stack")
+
+# C17ObjUnmarshalFull: the unmarshaller's refinement for everything but keyed unions and atlas-resolved tags
+PROPS["C17"]["theorems"] += ["Refmt.C17ObjUnmarshal.unmarshaller_refines_frag", "Refmt.C17ObjUnmarshal.unmarshaller_refines_target",
+    "Refmt.C17ObjUnmarshal.unmarshaller_refines_fixed_frag", "Refmt.C17ObjUnmarshal.unmarshaller_refines_fixed_statement_false"]
+PROPS["C17"]["extra_modules"] = PROPS["C17"].get("extra_modules", []) + ["RefmtProofs.Props.C17ObjUnmarshalFull"]
+PROPS["C17"]["claim"] += (" Since C17ObjUnmarshalFull (about 3900 lines) the unmarshaller's refinement is proved far beyond scalars: for every target "
+    "type whose reachable types (FragTarget, decidable) use the primitive machine, error thunks, pointers (up to 64 levels), slices, arrays, "
+    "maps with string or transformed keys, struct maps with ignored keys, untyped slots (scalars and nested untyped containers, atlases "
+    "without tagged entries) and transforms over those - recursive types included - the stateful unmarshaller started from ANY dirty "
+    "instance, with ANY current content of the target, gives the functional model's outcome on every token list "
+    "(unmarshaller_refines_frag / _target / _fixed_frag). Not covered by a theorem: keyed unions and tags resolved through the atlas (both "
+    "re-configure a row in place); there the unmarshalm cases are the tie. Two further places where the two models differ are proved and "
+    "excluded by decidable hypotheses (more than 64 pointer levels below a container; a union member whose Reset fails reports its error "
+    "one token earlier in the stateful model).")
+PROPS["C13"]["theorems"] += ["Refmt.C17ObjUnmarshal.unmarshaller_refines_target"]
+PROPS["C13"]["extra_modules"] = PROPS["C13"].get("extra_modules", []) + ["RefmtProofs.Props.C17ObjUnmarshalFull"]
